@@ -7,7 +7,7 @@ mod scn_time;
 mod scn_inbound;
 
 fn all_scenarios() -> Vec<&'static dyn Scenario> {
-    vec![&scenarios::Basic, &scenarios::Close, &scenarios::Death, &scn_rpc::Rpc, &scn_rpc::ChClose, &scn_rpc::Ids, &scn_rpc::Wire, &scn_batch::Batch, &scn_hs::Hs, &scn_time::Hb, &scn_time::Throttle, &scn_time::Tuned, &scn_inbound::Inbound, &scn_inbound::Segments, &scn_inbound::ConsumerLife, &scn_inbound::ConsumerRace, &scn_inbound::Listeners, &scn_inbound::Violations]
+    vec![&scenarios::Basic, &scenarios::Close, &scenarios::Death, &scn_rpc::Rpc, &scn_rpc::ChClose, &scn_rpc::Ids, &scn_rpc::Wire, &scn_rpc::PubWire, &scn_batch::Batch, &scn_hs::Hs, &scn_time::Hb, &scn_time::Throttle, &scn_time::Tuned, &scn_inbound::Inbound, &scn_inbound::Segments, &scn_inbound::ConsumerLife, &scn_inbound::ConsumerRace, &scn_inbound::Listeners, &scn_inbound::Violations]
 }
 
 use serde_json::{json, Value};
